@@ -1,0 +1,67 @@
+//! Verification hooks: drive the crate-private `Indexer<RocksdbStore>` in-process.
+//!
+//! Nothing here changes behaviour; the module only forwards to the existing code
+//! (`Indexer::{new, append, rollback, tip}` through the `IndexerSync` trait and
+//! `IndexerHandle`) and offers a read-only dump of the key-value rows.
+
+use crate::indexer::Indexer;
+use crate::service::IndexerHandle;
+use crate::store::{IteratorDirection, RocksdbStore, Store};
+use ckb_indexer_sync::{CustomFilters, Error, IndexerSync};
+use ckb_types::{
+    core::{BlockNumber, BlockView},
+    packed::Byte32,
+};
+use std::path::Path;
+use std::time::Duration;
+
+/// The built-in indexer over a RocksDB store opened at a given path, without
+/// tx-pool overlay and without custom filters.
+pub struct VerifIndexer {
+    store: RocksdbStore,
+    indexer: Indexer<RocksdbStore>,
+}
+
+impl VerifIndexer {
+    /// Open (create if missing) the store at `path` with `RocksdbStore::default_options()`.
+    pub fn open<P: AsRef<Path>>(path: P, keep_num: u64, prune_interval: u64) -> Self {
+        let store = RocksdbStore::new(&RocksdbStore::default_options(), path);
+        let indexer = Indexer::new(
+            store.clone(),
+            keep_num,
+            prune_interval,
+            None,
+            CustomFilters::new(None, None),
+        );
+        VerifIndexer { store, indexer }
+    }
+
+    /// `IndexerSync::append`
+    pub fn append(&self, block: &BlockView) -> Result<(), Error> {
+        self.indexer.append(block)
+    }
+
+    /// `IndexerSync::rollback`
+    pub fn rollback(&self) -> Result<(), Error> {
+        self.indexer.rollback()
+    }
+
+    /// `IndexerSync::tip`
+    pub fn tip(&self) -> Result<Option<(BlockNumber, Byte32)>, Error> {
+        self.indexer.tip()
+    }
+
+    /// A query handle over the same store, as `IndexerService::handle` builds it.
+    pub fn handle(&self, request_limit: usize, timeout_limit: Duration) -> IndexerHandle {
+        IndexerHandle::verif_new(self.store.clone(), request_limit, timeout_limit)
+    }
+
+    /// Every key-value row of the store in key order (read-only).
+    pub fn dump(&self) -> Result<Vec<(Vec<u8>, Vec<u8>)>, Error> {
+        Ok(self
+            .store
+            .iter([], IteratorDirection::Forward)?
+            .map(|(k, v)| (k.to_vec(), v.to_vec()))
+            .collect())
+    }
+}
